@@ -12,13 +12,22 @@ Line-protocol driver for C11 (Model/Chunks.lean).
   trim gx gy gz nz ny nx    trimGhost of the index-valued block
   fixij nz ny nx            fixij of the index-valued block
   sel  r:itmin:itmax,... its   readOrder (restart = -1): `it:restart` pairs
+  sel2 usechk restart|- cats its   Model/Restarts.readETData around a reader that returns the restart number:
+      cats = r:lo-hi|-:c1+c2+..|-|0 , comma separated (0 = empty checkpoint list); -> `it:restart` pairs, `err`
+  flat oldIt table table ...   Model/Restarts.flattenTables; table = r:it+it+..:key=v+v+..;key=v+..
+      -> `ok it=..|key=..|key=..`, `err`
+  ckpt rl its vars file file ...   Model/Checkpoint.readCheckpoints; vars = aurel names (comma separated);
+      file = itName:fileNo|-:dset;dset;... ; dset = thorn,var,it,tl,rl|-,c|-,gx,gy,gz,ox,oy,oz,time,sz,sy,sx,v0
+      -> `ok it=..|t=..|name=<arr>/<arr>|...` (arr = d0xd1xd2:v,v,..), `err`
   var2et name / et2var name / comps name    the generated name maps
 
 Output: `ok d0 d1 d2 : v v v ...` (`ok empty` for an array without elements), `err`.
 -/
 import AurelVerif.Model.Chunks
+import AurelVerif.Model.Restarts
+import AurelVerif.Model.Checkpoint
 import AurelVerif.Gen.VarMaps
-open AurelVerif.Chunks
+open AurelVerif.Chunks AurelVerif.Restarts AurelVerif.Checkpoint
 
 def mkBlock (v0 sz sy sx : Nat) : Arr3 Nat :=
   (List.range sz).map fun z => (List.range sy).map fun y => (List.range sx).map fun x =>
@@ -58,6 +67,59 @@ def parseAvail (s : String) : Option Avail :=
   | some [r, a, b] => some (r, a, b)
   | _ => none
 
+def optNat (s : String) : Option (Option Nat) :=
+  if s == "-" then some none else s.toNat?.map some
+
+def parseCat (s : String) : Option Cat :=
+  match s.splitOn ":" with
+  | [r, rg, ck] => do
+    let r ← r.toNat?
+    let rg ← if rg == "-" then some none else
+      match rg.splitOn "-" with
+      | [a, b] => do pure (some ((← a.toNat?), (← b.toNat?)))
+      | _ => none
+    let ck ← if ck == "-" then some none else if ck == "0" then some (some []) else (nats ck "+").map some
+    pure ⟨r, rg, ck⟩
+  | _ => none
+
+def parseCol (s : String) : Option (String × List Nat) :=
+  match s.splitOn "=" with
+  | [k, vs] => (nats vs "+").map fun l => (k, l)
+  | _ => none
+
+def parseTable (s : String) : Option (Nat × Table Nat) :=
+  match s.splitOn ":" with
+  | [r, its, cols] => do
+    let r ← r.toNat?
+    let its ← nats its "+"
+    let cols ← if cols.isEmpty then some [] else (cols.splitOn ";").mapM parseCol
+    pure (r, ⟨its, cols⟩)
+  | _ => none
+
+def parseDSet (s : String) : Option (DSet Nat) :=
+  match s.splitOn "," with
+  | [thorn, var, it, tl, rl, c, gx, gy, gz, ox, oy, oz, time, sz, sy, sx, v0] => do
+    pure { thorn := thorn, var := var, it := (← it.toNat?), tl := (← tl.toNat?), rl := (← optNat rl), c := (← optNat c),
+           ghost := ((← gx.toNat?), (← gy.toNat?), (← gz.toNat?)), iorigin := ((← ox.toNat?), (← oy.toNat?), (← oz.toNat?)),
+           time := (← time.toNat?), data := mkBlock (← v0.toNat?) (← sz.toNat?) (← sy.toNat?) (← sx.toNat?) }
+  | _ => none
+
+def parseCFile (s : String) : Option (CFile Nat) :=
+  match s.splitOn ":" with
+  | [itn, fno, ds] => do
+    let ds ← if ds.isEmpty then some [] else (ds.splitOn ";").mapM parseDSet
+    pure ⟨(← itn.toNat?), (← optNat fno), ds⟩
+  | _ => none
+
+def showArr3 (a : Arr3 Nat) : String :=
+  let vals := a.flatten.flatten
+  if vals.isEmpty then "empty"
+  else s!"{a.length}x{dim1 a}x{dim2 a}:" ++ ",".intercalate (vals.map toString)
+
+def showCell : Cell Nat → String
+  | .t x => toString x
+  | .arr a => showArr3 a
+
 def step (line : String) : String :=
   match (line.trimAscii.toString.splitOn " ") with
   | ["join", bx, b_y, bz, nz, ny, nx, d, perm] =>
@@ -91,6 +153,33 @@ def step (line : String) : String :=
     | some av, some its =>
       "ok " ++ " ".intercalate ((readOrder av its).map fun p => s!"{p.1}:{p.2}")
     | _, _ => "bad-op"
+  | ["sel2", usechk, restart, cats, its] =>
+    match optNat restart, (cats.splitOn ",").mapM parseCat, nats its "," with
+    | some restart, some cats, some its =>
+      match readETData (usechk == "1") cats restart its (fun r l => some ⟨l, [("r", l.map fun _ => r)]⟩) with
+      | some (its', cols) =>
+        "ok " ++ " ".intercalate ((its'.zip ((cols.get? "r").getD [])).map fun p => s!"{p.1}:{p.2}")
+      | none => "err"
+    | _, _, _ => "bad-op"
+  | "flat" :: oldIt :: tabs =>
+    match nats oldIt ",", tabs.mapM parseTable with
+    | some oldIt, some tabs =>
+      match flattenTables tabs oldIt with
+      | some (its', cols) =>
+        "ok it=" ++ ",".intercalate (its'.map toString)
+          ++ String.join (cols.map fun kc => "|" ++ kc.1 ++ "=" ++ ",".intercalate (kc.2.map toString))
+      | none => "err"
+    | _, _ => "bad-op"
+  | "ckpt" :: rl :: its :: vars :: files =>
+    match rl.toNat?, nats its ",", files.mapM parseCFile with
+    | some rl, some its, some files =>
+      let var := (vars.splitOn ",").flatMap AurelVerif.Gen.VarMaps.aurelToET
+      match readCheckpoints AurelVerif.Gen.VarMaps.etToAurel files var its rl with
+      | some T =>
+        "ok it=" ++ ",".intercalate (T.its.map toString)
+          ++ String.join (T.cols.map fun kc => "|" ++ kc.1 ++ "=" ++ "/".intercalate (kc.2.map showCell))
+      | none => "err"
+    | _, _, _ => "bad-op"
   | ["var2et", v] => "ok " ++ ",".intercalate (AurelVerif.Gen.VarMaps.aurelToET v)
   | ["et2var", v] => "ok " ++ AurelVerif.Gen.VarMaps.etToAurel v
   | ["comps", v] => "ok " ++ ",".intercalate (AurelVerif.Gen.VarMaps.tensorToScalar v)
